@@ -41,21 +41,34 @@ type EventMeta struct {
 	FailedDeletes []types.Error
 }
 
-// deleteFailed reports whether the DeleteObjects entry obj is one of the
-// entries the request failed for.
-func (m EventMeta) deleteFailed(obj types.ObjectIdentifier) bool {
+// deletedEntries returns the entries of a DeleteObjects request that are to
+// be notified: of the entries naming the same key and version id, as many
+// as the request did not fail for.
+func (m EventMeta) deletedEntries(objs []types.ObjectIdentifier) []types.ObjectIdentifier {
 	str := func(s *string) string {
 		if s == nil {
 			return ""
 		}
 		return *s
 	}
+	type id struct{ key, versionId string }
+	failed := map[id]int{}
 	for _, e := range m.FailedDeletes {
-		if str(e.Key) == str(obj.Key) && str(e.VersionId) == str(obj.VersionId) {
-			return true
-		}
+		failed[id{str(e.Key), str(e.VersionId)}]++
 	}
-	return false
+	var out []types.ObjectIdentifier
+	for i := len(objs) - 1; i >= 0; i-- {
+		k := id{str(objs[i].Key), str(objs[i].VersionId)}
+		if objs[i].Key == nil {
+			continue
+		}
+		if failed[k] > 0 {
+			failed[k]--
+			continue
+		}
+		out = append([]types.ObjectIdentifier{objs[i]}, out...)
+	}
+	return out
 }
 
 type EventSchema struct {
